@@ -4,7 +4,7 @@
    produced by encoders do not.  These facts are sampled by the correspondence run. *)
 From Coq Require Import String List NArith.
 From Http Require Import Model.Bytes Model.Headers Model.Coding Model.Inflate Spec.DeflateStored
-     Proofs.Rewrite Proofs.CodingGlue Proofs.InflateC15 Proofs.InflateStored Proofs.HuffmanCanon Proofs.HuffmanFixed.
+     Proofs.Rewrite Proofs.CodingGlue Proofs.InflateC15 Proofs.InflateStored Proofs.HuffmanCanon Proofs.HuffmanFixed Proofs.CopyMatch Proofs.HuffmanFixedLZ.
 Import ListNotations.
 
 Theorem C13_decode_inverts_every_stack :
@@ -110,3 +110,36 @@ Example C13_fixed_block_example :
   exists pad, length pad < 8 /\
     flat_map byte_bits [75; 76; 74; 6; 0]%N = [true; true; false] ++ lit_bits [97; 98; 99]%N ++ pad.
 Proof. exists [false; false; false; false; false; false]. split; [simpl; repeat constructor|]. vm_compute. reflexivity. Qed.
+
+(* one final block in the fixed code with literals AND matches (zlib: Z_FIXED at any level), for ANY choice
+   of matches: the symbols are literals and (length symbol, extra bits, distance symbol, extra bits); the
+   decoder returns what RFC 1951's byte-at-a-time copy (copy_match; a match may overlap what it produces)
+   assigns to the sequence.  The model's one-traversal copy is proved equal to that copy. *)
+Theorem C13_fixed_block_inverted :
+  forall (e : bytes) (xs : list fsym) (pad : list bool),
+    Forall fsym_ok xs ->
+    flat_map byte_bits e = [true; true; false] ++ block_bits xs ++ pad ->
+    length pad < 8 ->
+    inflate_raw_model e = Some (rev (fold_left fsym_apply xs [])).
+Proof. exact fixed_block_inverts. Qed.
+Print Assumptions C13_fixed_block_inverted.
+
+Theorem C13_fast_copy_is_rfc_copy :
+  forall len d out, copy_match_fast len d out = copy_match len d out.
+Proof. exact copy_match_fast_is_rfc_copy. Qed.
+Print Assumptions C13_fast_copy_is_rfc_copy.
+
+(* non-vacuity: zlib (level 6, Z_FIXED) on "abcabcabcabc": four literals and one match of length 8 at
+   distance 3, which overlaps itself *)
+Example C13_fixed_block_lz_example :
+  let xs := [FLit 97; FLit 98; FLit 99; FLit 97; FMatch 262 0 2 0]%N in
+  Forall fsym_ok xs /\
+  (exists pad, length pad < 8 /\
+     flat_map byte_bits [75; 76; 74; 78; 132; 33; 0]%N = [true; true; false] ++ block_bits xs ++ pad) /\
+  rev (fold_left fsym_apply xs []) = [97; 98; 99; 97; 98; 99; 97; 98; 99; 97; 98; 99]%N.
+Proof.
+  split; [|split].
+  - repeat constructor; vm_compute; try reflexivity; repeat constructor.
+  - eexists. split; [|vm_compute; reflexivity]. simpl. repeat constructor.
+  - vm_compute. reflexivity.
+Qed.
